@@ -96,6 +96,10 @@ func (v *StructSchema) process(ctx *p.SchemaCtx) {
 		dataProv = newDp
 	}
 
+	if dataProv == nil {
+		dataProv = &p.EmptyDataProvider{}
+	}
+
 	// 3. Process / validate struct fields
 	structVal := reflect.ValueOf(ctx.ValPtr).Elem()
 	subCtx := ctx.NewSchemaCtx(ctx.Data, ctx.ValPtr, ctx.Path, v.getType())
